@@ -1,27 +1,625 @@
-"""C01 — reliable data channels: every message exactly once, intact, in order."""
+"""C01 — reliable data channels: every message exactly once, intact, in order.
+
+Components
+  world : two REAL endpoints under recorded fault schedules, replayed step by step through the Lean endpoint
+          automaton (harness/sctp_check.py) + the C01 oracle on the real `message` events, evaluated at the final
+          state AND at every delivery instant (global step stamps).
+  recv  : function-level correspondence of the REAL `_receive_data_chunk` (`_mark_received`, `InboundStream.add_chunk`,
+          `pop_messages`; `_receive` stubbed) with the pure Lean receiver `Recv.step` that the theorems are about, over
+          arbitrary arrival lists (loss / duplication / reordering) of sender-shaped chunks and over malformed chunks;
+          oracle = the C01 statement on what the real method handed to `_receive`.
+  send  : REAL `_send` (`_transmit` stubbed) vs `Tx.sendAll`; oracle = fragments_join / flags / TSN / SSN / size.
+  ppid  : REAL `_data_channel_send` + `_data_channel_receive` vs `encodeUser` / `decodeUser`; oracle = round trip.
+"""
+from __future__ import annotations
+
+import atexit
+import collections
+import itertools
+import types
+
+from harness.check import Component
 from harness import sctp_check as S
+from harness import sctp_world as W
 
 LEAN_TARGETS = ["Aiortc.Props.C01"]
-DRIVERS = ["Sctp"]
-RULE = ("a case is a recorded schedule (deliver/drop/duplicate/reorder datagrams, fire timers, run tasks, create/send on "
+DRIVERS = ["Sctp", "SctpRecv"]
+MANIFEST = {
+    "technique": "Lean 4 theorems (induction over arbitrary arrival lists; refinement invariant between sender plan and receiver state) "
+                 "about executable line-by-line models + function-level differential runs of the real receive/send/PPID code against "
+                 "the pure model + step-by-step trace correspondence of two real endpoints with the Lean endpoint automaton + "
+                 "implementation-side oracle at every delivery instant",
+    "text": "Proved in Lean for ALL initial TSNs, message sequences and arrival lists (no sorry, core axioms only): `_send` fragmentation "
+            "(join = message, B exactly first / E exactly last, U iff unordered, TSNs consecutive mod 2^32, same sid/ssn/ppid, <= 1200 bytes: "
+            "fragments_shape/_flags/_join/_size, enqueue_counters, sendAll_wire); `_mark_received` accepts every TSN exactly once inside "
+            "the 2^31 sliding window, for any origin (markReceived_invariant/_once, accepted_exactly_once); `pop_messages` never hangs and "
+            "every yield is a TSN-consecutive B..first-E run that leaves the queue (pop_sound, pop_never_hangs); `add_chunk` never asserts on "
+            "a new TSN and keeps the queue sorted and duplicate-free (addChunk_no_assert, addChunk_keeps_sorted); end to end over an ARBITRARY "
+            "arrival list of sender chunks (= any loss/duplication/reordering/delay, every observation instant): the pure receiver never "
+            "raises (C01_receiver_total), deliveries on an ordered stream are a prefix of the sends (C01_ordered), on any stream the images of "
+            "a duplicate-free list of sent-message indices hence a sub-multiset (C01_unordered, C01_unordered_count), every delivery equals "
+            "a sent message in stream id, PPID and payload (C01_no_crosstalk); chunk-level corollary with plain hypotheses (C01_chunks); "
+            "every prefix of the arrivals yields a prefix of the final deliveries (C01_every_instant); application level incl. str/bytes "
+            "type (C01_app_ordered, appView_userMsgs); PPID mapping round trip for str/bytes incl. empty (ppid_roundtrip); the pure receiver "
+            "step refines the endpoint automaton's receiveData, dcReceive emits decodeUser's value (endpoint_receive_refines, "
+            "endpoint_dcReceive_user). The sliding-window versions are kept as defs (C01_ordered_sliding, C01_unordered_sliding); proved: "
+            "their restriction to < 2^31 chunks per association (C01_ordered_partial, C01_unordered_partial).",
+    "note": "The theorems are about the pure functions `Tx.sendAll`, `Recv.step/run`, `encodeUser/decodeUser` (Model/Sctp/Recv.lean), which call "
+            "the shared models `Tx.enqueue`, `markReceived`, `InStream.addChunk/popMessages`.  They are tied to the real code by the "
+            "function-level components recv/send/ppid and, for the whole endpoint (handshake, SACK/retransmission, DCEP, bundling, "
+            "timers), by the world trace correspondence.  That retransmission eventually delivers everything is C02, not C01.",
+    "design_ref": "DESIGN.md §2 C01, §2.0",
+}
+ASSUMPTIONS = [
+    "C01_* (end to end): fewer than 2^31 DATA chunks are sent during the association (any initial TSN, so the 32-bit TSN may wrap); "
+    "markReceived_once itself needs only the sliding window: fewer than 2^31 TSNs between the first missing TSN and an arriving chunk",
+    "C01_* (ordered streams): SsnWin — a fragment of an ordered message arrives only while fewer than 2^15 messages separate that message "
+    "from the number of messages already delivered on its stream (16-bit SSN; implied by `at most 2^15 ordered messages per stream`, "
+    "which C01_chunks assumes); outside this window the real code (like RFC 4960) can deliver out of order",
+    "the arrival list contains only DATA chunks the peer's `_send` produced for reliable channels (nothing forged: DTLS C04 + CRC C08), "
+    "and no FORWARD TSN / RE-CONFIG is processed in between: associations that also carry partially reliable channels or close "
+    "channels are covered by the world trace correspondence + oracle (profile mixed-pr), not by the end-to-end theorems",
+    "C01_ordered is stated for streams all of whose messages are ordered (an ordered channel incl. its DCEP OPEN); on an unordered "
+    "channel's stream (ordered OPEN + unordered user messages) only C01_unordered / C01_no_crosstalk are claimed, as in the property",
+    "ppid_roundtrip: a str payload is valid UTF-8 (always true for what `str.encode('utf8')` returns)",
+]
+TRUSTED_EXTRA = [
+    "the pure receiver `Recv.step` is proved to be what one `receiveData` call of Model/Sctp/Endpoint.lean computes "
+    "(endpoint_receive_refines) and `dcReceive` on a user message is proved to leave the state alone and emit exactly `decodeUser`'s "
+    "value (endpoint_dcReceive_user); NOT proved: that `deliver` of DCEP control messages (OPEN/ACK → flush/transmit) leaves "
+    "`rx`/`inStreams` untouched, i.e. the multi-call refinement of the endpoint automaton — covered by the world traces only",
+    "the sender is abstracted to the sequence of its `_send` calls: that `_transmit`/retransmission put exactly these chunks (unchanged "
+    "wire fields) on the wire is checked by the trace correspondence (datagrams compared as bytes), not proved",
+    "DATA chunk wire encoding/decoding is C08's model; DCEP OPEN/ACK handling, channel lookup by stream id and the `message` event "
+    "emission are modelled in Endpoint.lean (dcReceive) and only trace-checked",
+    "UTF-8 validity of received strings is the model's `utf8Valid` (trace-checked against `bytes.decode`)",
+]
+RULE = ("world: a case is a recorded schedule (deliver/drop/duplicate/reorder datagrams, fire timers, run tasks, create/send on "
         "channels) over two REAL RTCSctpTransport endpoints under a deterministic runtime; both endpoints' inputs are "
         "replayed through the Lean endpoint automaton (datagrams as raw bytes) and every step's outputs are compared; "
-        "distinct = distinct schedule; non-trivial = at least one message was delivered")
+        "distinct = distinct schedule; non-trivial = at least one message was delivered. "
+        "recv: a sender plan (1-3 streams, ordered / unordered-with-ordered-OPEN, 1-4 fragments per message, TSN origin biased to the "
+        "2^32 wrap, SSN origin biased to the 2^16 wrap) and an arrival list of its chunks with drops, duplicates and bounded or full "
+        "shuffles (thorough: all permutations of up to 6 chunks), plus a malformed stream (random flags/ssn/tsn); non-trivial = a message "
+        "was delivered. send: message lists with sizes at the 1200-byte fragment boundaries, TSN/SSN origins at the wrap points. "
+        "ppid: str/bytes values incl. empty, multi-byte UTF-8, and arbitrary (ppid, payload) pairs incl. invalid UTF-8")
+
+
+# ---------------------------------------------------------------------------------------------------------
+# world (+ every-instant oracle)
+# ---------------------------------------------------------------------------------------------------------
+
+
+class TWorld(W.World):
+    """World that stamps every recorded step and every accepted send() with a global step number."""
+
+    last = None
+
+    def __init__(self, case):
+        super().__init__(case)
+        self.sendlog = []  # (global step, ep, channel index, message)
+        TWorld.last = self
+
+    def _after(self, name, inp, exc):
+        super()._after(name, inp, exc)
+        self.trace[name][-1]["g"] = self.steps
+
+    def apply(self, op):
+        if op and op[0] == "send" and op[1] in self.ep and op[2] < len(self.ep[op[1]].channels):
+            before = len(self.sent[op[1]].get(op[2], []))
+            r = super().apply(op)
+            after = self.sent[op[1]].get(op[2], [])
+            if len(after) > before:
+                self.sendlog.append((self.steps, op[1], op[2], after[-1]))
+            return r
+        return super().apply(op)
+
+
+class TRun(S.Run):
+    def __init__(self, case, heal=True, heal_steps=6000):
+        orig = W.World
+        W.World = TWorld
+        try:
+            super().__init__(case, heal=heal, heal_steps=heal_steps)
+        finally:
+            W.World = orig
+        w = TWorld.last
+        TWorld.last = None
+        self.sendlog = list(w.sendlog)
+        self.deliverlog = [(st["g"], n, ev[1], ev[2]) for n in "AB" for st in w.trace[n] for ev in st["events"]
+                           if ev[0] == "message"]
+
+
+def _trun(case):
+    try:
+        return TRun(case, heal=case.get("heal", True))
+    except Exception as exc:  # harness failure: keep visible
+        import traceback
+        return "HARNESS-EXC " + type(exc).__name__ + ": " + str(exc)[:300] + " " + traceback.format_exc()[-400:]
+
+
+def oracle_c01_instants(case, run):
+    """At EVERY delivery instant: the messages delivered so far on a reliable channel are a prefix (ordered) / a
+    sub-multiset (unordered) of the send() calls made so far on its peer channel."""
+    if not hasattr(run, "deliverlog"):
+        return None
+    for src, i, dst, j in S._pairs(run):
+        ch = run.channels[src][i]
+        if ch["rtx"] is not None or ch["life"] is not None or ch["negotiated"] or j is None:
+            continue
+        sends = [(g, m) for g, n, ci, m in run.sendlog if n == src and ci == i]
+        got = sorted((g, k, m) for k, (g, n, cj, m) in enumerate(run.deliverlog) if n == dst and cj == j)
+        seen = []
+        for g, _, m in got:
+            seen.append(m)
+            sofar = [x for gs, x in sends if gs <= g]
+            if ch["ordered"]:
+                if [S._rep(x) for x in seen] != [S._rep(x) for x in sofar[:len(seen)]]:
+                    return (f"ordered reliable channel id={ch['id']} {src}->{dst}: at global step {g} the {len(seen)} deliveries "
+                            f"are not a prefix of the {len(sofar)} messages sent so far")
+            else:
+                cg = collections.Counter(map(S._rep, seen))
+                cs = collections.Counter(map(S._rep, sofar))
+                if any(v > cs[k] for k, v in cg.items()):
+                    return (f"unordered reliable channel id={ch['id']} {src}->{dst}: at global step {g} a message has been "
+                            f"delivered more often than it was sent so far")
+    return None
 
 
 class World(S.WorldComponent):
     name = "world"
     prop = "C01"
-    theorems = ["fragments_join", "markReceived_once", "pop_sound", "C01_ordered", "C01_unordered"]
-    mix = [("reliable", False, 2), ("reliable", True, 1), ("reorder-frag", True, 2), ("reorder-frag", False, 1),
-           ("reliable-heavy-loss", False, 2), ("clean", False, 1), ("mixed-pr", False, 1)]
-    quick = (32, 260)
-    thorough = (300, 500)
-    oracles = [S.oracle_no_crash, S.oracle_c01]
+    theorems = ["sendAll_wire", "markReceived_once", "pop_sound", "C01_receiver_total", "C01_ordered", "C01_unordered",
+                "C01_no_crosstalk", "ppid_roundtrip"]
+    mix = [("reliable", False, 3), ("reliable", True, 2), ("reliable-heavy-loss", False, 2), ("clean", False, 1),
+           ("mixed-pr", False, 1)]
+    quick = (24, 260)
+    thorough = (360, 500)
+    oracles = [S.oracle_no_crash, S.oracle_c01, oracle_c01_instants]
+
+    def impl_many(self, cases):
+        from harness.check import case_key
+        results = S.pool().map(_trun, cases, chunksize=1)
+        outs = []
+        for c, r in zip(cases, results):
+            if isinstance(r, str):
+                outs.append(r)
+            else:
+                self.runs[case_key(c)] = r
+                outs.append(r.expected)
+        return outs
+
+    def impl(self, case):
+        from harness.check import case_key
+        r = _trun(case)
+        if isinstance(r, str):
+            return r
+        self.runs[case_key(case)] = r
+        return r.expected
+
+
+# ---------------------------------------------------------------------------------------------------------
+# helpers: a bare real transport
+# ---------------------------------------------------------------------------------------------------------
+
+
+def _transport(tsn=1000):
+    from harness import sctp_sim as sim
+    ep = sim.Endpoint("A", "controlling", 1, tsn)
+    return ep, ep.t, ep.m
+
+
+def _drive(coro):
+    try:
+        coro.send(None)
+    except StopIteration:
+        return
+    coro.close()
+    raise RuntimeError("handler suspended")
+
+
+def _hx(b):
+    return bytes(b).hex() if b else "-"
+
+
+# ---------------------------------------------------------------------------------------------------------
+# recv: `_receive_data_chunk` vs Recv.step
+# ---------------------------------------------------------------------------------------------------------
+
+M32 = 1 << 32
+TSN_ORIGINS = [0, 1, M32 - 1, M32 - 2, M32 - 3, M32 - 5, 2**31 - 2, 2**31, 12345]
+SSN_ORIGINS = [0, 0, 0, 65535, 65534, 65533, 32767]
+
+
+def plan_chunks(t0, streams, msgs):
+    """Chunks the sender's `_send` would produce.  streams: sid -> (kind, ssn0) with kind "o" (ordered channel) or "u"
+    (unordered channel: first message ordered like the DCEP OPEN, the others unordered); msgs: [sid, ppid, nfrag, salt]."""
+    ssn = {int(s): v[1] for s, v in streams.items()}
+    first = {int(s): True for s in streams}
+    tsn = t0
+    chunks, plan = [], []
+    for sid, ppid, nfrag, salt in msgs:
+        kind = streams[str(sid)][0]
+        ordered = kind == "o" or first[sid]
+        first[sid] = False
+        s = ssn[sid] if ordered else 0
+        data = b""
+        for f in range(nfrag):
+            flags = (0 if ordered else 4) | (2 if f == 0 else 0) | (1 if f == nfrag - 1 else 0)
+            d = bytes([salt % 256, f, (salt >> 8) % 256])
+            data += d
+            chunks.append([tsn, sid, s, ppid, flags, d.hex()])
+            tsn = (tsn + 1) % M32
+        if ordered:
+            ssn[sid] = (ssn[sid] + 1) % 65536
+        plan.append([sid, ppid, data.hex(), ordered])
+    return chunks, plan
+
+
+class Recv(Component):
+    name = "recv"
+    theorems = ["markReceived_invariant", "markReceived_once", "addChunk_no_assert", "addChunk_keeps_sorted", "pop_sound",
+                "pop_never_hangs", "C01_receiver_total", "C01_ordered", "C01_unordered", "C01_unordered_count", "C01_no_crosstalk",
+                "C01_chunks"]
+
+    def corpus(self):
+        out = []
+        # duplicate of an already delivered out-of-order unordered message; duplicate of the cumulative TSN; SSN wrap
+        for t0 in (M32 - 2, 7):
+            streams = {"1": ["u", 0], "2": ["o", 65535]}
+            msgs = [[1, 50, 1, 1], [2, 50, 1, 2], [1, 53, 1, 3], [2, 51, 2, 4], [1, 53, 2, 5], [2, 53, 1, 6]]
+            chunks, plan = plan_chunks(t0, streams, msgs)
+            for order in ([2, 2, 0, 1, 0, 1, 7, 3, 4, 4, 3, 5, 6, 7, 5], [7, 5, 6, 4, 3, 2, 1, 0, 0, 7], [0, 1, 2, 3, 4, 5, 6, 7]):
+                out.append(self._case(t0, streams, msgs, order))
+        # boundary probes of the theorems' hypotheses on the real code (model and code must agree there too):
+        # SSN 2^15 ahead of the expected one is delivered at once (SsnWin is necessary); SSN 2^15-1 ahead waits;
+        # a TSN 2^31+1 ahead of the cumulative TSN is taken for a duplicate, 2^31-1 ahead is accepted
+        out.append({"kind": "raw", "last": 9, "seqs": {}, "chunks": [[40000, 1, 32768, 53, 3, "01"]]})
+        out.append({"kind": "raw", "last": 9, "seqs": {}, "chunks": [[40000, 1, 32767, 53, 3, "01"], [10, 1, 0, 53, 3, "02"]]})
+        out.append({"kind": "raw", "last": 9, "seqs": {"1": 65535}, "chunks": [[11, 1, 0, 53, 3, "01"], [10, 1, 65535, 53, 3, "02"]]})
+        out.append({"kind": "raw", "last": M32 - 1, "seqs": {}, "chunks": [[2**31, 1, 0, 53, 7, "01"], [2**31 - 2, 1, 0, 53, 7, "02"],
+                                                                         [2**31 - 1, 1, 0, 53, 7, "03"]]})
+        return out
+
+    @staticmethod
+    def _case(t0, streams, msgs, order):
+        chunks, plan = plan_chunks(t0, streams, msgs)
+        return {"kind": "plan", "last": (t0 - 1) % M32, "streams": streams, "msgs": msgs, "order": order}
+
+    def cases(self, rng, tier):
+        n = 220 if tier == "quick" else 5000
+        out = []
+        for _ in range(n):
+            t0 = rng.choice(TSN_ORIGINS) if rng.random() < 0.7 else rng.randrange(M32)
+            nstreams = rng.choice([1, 2, 2, 3])
+            streams = {str(s): [rng.choice("ou"), rng.choice(SSN_ORIGINS)] for s in rng.sample([0, 1, 2, 5], nstreams)}
+            for s in streams:
+                if streams[s][0] == "u":
+                    streams[s][1] = rng.choice([0, 65535])
+            msgs = []
+            for k in range(rng.randrange(1, 8)):
+                sid = int(rng.choice(list(streams)))
+                msgs.append([sid, rng.choice([50, 51, 53, 56, 57]), rng.choice([1, 1, 1, 2, 3, 4]), rng.randrange(1, 60000)])
+            chunks, _ = plan_chunks(t0, streams, msgs)
+            idx = list(range(len(chunks)))
+            order = []
+            mode = rng.random()
+            for i in idx:
+                if rng.random() < (0.0 if mode < 0.3 else 0.15):
+                    continue  # lost
+                order.append(i)
+                if rng.random() < 0.15:
+                    order.append(i)  # duplicated
+            if mode < 0.5:
+                rng.shuffle(order)
+            else:  # bounded reordering
+                for a in range(len(order)):
+                    b = min(len(order) - 1, a + rng.randrange(0, 4))
+                    order[a], order[b] = order[b], order[a]
+            if rng.random() < 0.3:  # late duplicates
+                order += [rng.choice(idx) for _ in range(rng.randrange(1, 4))]
+            out.append(self._case(t0, streams, msgs, order))
+        # malformed stream
+        for _ in range(n // 3):
+            last = rng.choice(TSN_ORIGINS)
+            chunks = []
+            for _ in range(rng.randrange(1, 12)):
+                chunks.append([(last + rng.choice([-2, -1, 0, 1, 1, 2, 2, 3, 4, 5, 6, 2**31, 2**31 + 1])) % M32, rng.choice([0, 1]),
+                               rng.choice([0, 0, 1, 2, 65535]), rng.choice([50, 51, 53]), rng.randrange(8),
+                               bytes([rng.randrange(256)]).hex()])
+            out.append({"kind": "raw", "last": last, "seqs": {str(s): rng.choice([0, 1, 65535]) for s in rng.sample([0, 1], rng.randrange(0, 3))},
+                        "chunks": chunks})
+        if tier != "quick":
+            # all arrival orders of small plans
+            for t0, streams, msgs in [
+                (M32 - 2, {"1": ["o", 65535]}, [[1, 51, 2, 1], [1, 53, 1, 2], [1, 51, 2, 3]]),
+                (M32 - 1, {"1": ["u", 0], "2": ["o", 0]}, [[1, 50, 1, 1], [2, 51, 1, 2], [1, 53, 2, 3], [2, 53, 1, 4], [1, 53, 1, 5]]),
+                (5, {"3": ["u", 0]}, [[3, 50, 1, 1], [3, 53, 3, 2], [3, 51, 1, 3], [3, 51, 1, 4]]),
+            ]:
+                chunks, _ = plan_chunks(t0, streams, msgs)
+                for perm in itertools.permutations(range(len(chunks))):
+                    out.append(self._case(t0, streams, msgs, list(perm)))
+        return out
+
+    @staticmethod
+    def _materialise(case):
+        if case["kind"] == "plan":
+            chunks, plan = plan_chunks((case["last"] + 1) % M32, case["streams"], case["msgs"])
+            seqs = {s: v[1] for s, v in case["streams"].items() if v[1] != 0}
+            return [chunks[i] for i in case["order"] if i < len(chunks)], seqs, plan
+        return case["chunks"], {s: v for s, v in case.get("seqs", {}).items()}, None
+
+    def model_line(self, case):
+        chunks, seqs, _ = self._materialise(case)
+        cs = ";".join(",".join(str(x) for x in c) for c in chunks) or "-"
+        sq = ",".join(f"{s}={v}" for s, v in seqs.items()) or "-"
+        return f"sctprecv run {case['last']} {sq} {cs}"
+
+    def impl(self, case):
+        chunks, seqs, _ = self._materialise(case)
+        ep, t, m = _transport()
+        t._last_received_tsn = case["last"]
+        for s, v in seqs.items():
+            st = m.InboundStream()
+            st.sequence_number = v
+            t._inbound_streams[int(s)] = st
+        got = []
+
+        async def _receive(stream_id, pp_id, data):
+            got.append(f"{stream_id}:{pp_id}:{_hx(data)}")
+
+        t._receive = _receive
+        parts = []
+        for tsn, sid, ssn, ppid, flags, d in chunks:
+            c = m.DataChunk(flags=flags)
+            c.tsn, c.stream_id, c.stream_seq, c.protocol, c.user_data = tsn, sid, ssn, ppid, bytes.fromhex(d)
+            got.clear()
+            try:
+                _drive(t._receive_data_chunk(c))
+            except AssertionError:
+                parts.append("crash AssertionError")
+                return "|".join(parts)
+            parts.append(",".join(got) or "-")
+        streams = "&".join(
+            f"{sid}={st.sequence_number}/" + ("+".join(str(c.tsn) for c in st.reassembly) or "-")
+            for sid, st in t._inbound_streams.items()) or "-"
+        mis = ",".join(str(x) for x in sorted(t._sack_misordered)) or "-"
+        dups = ",".join(str(x) for x in t._sack_duplicates) or "-"
+        return "|".join(parts) + f"#{t._last_received_tsn};{mis};{dups};{streams}"
+
+    def oracle(self, case, impl_out):
+        if case["kind"] != "plan":
+            return None
+        if "crash" in impl_out or "HARNESS" in impl_out:
+            return "exception escaped _receive_data_chunk on sender-produced chunks: " + impl_out[-60:]
+        _, _, plan = self._materialise(case)
+        body = impl_out.split("#")[0]
+        delivered = [x for part in body.split("|") for x in part.split(",") if x != "-" and x]
+        by_sid_sent = collections.defaultdict(list)
+        for sid, ppid, data, _ in plan:
+            by_sid_sent[sid].append(f"{sid}:{ppid}:{data or '-'}")
+        by_sid_got = collections.defaultdict(list)
+        for d in delivered:
+            by_sid_got[int(d.split(":")[0])].append(d)
+        # at every instant: check every prefix of the delivery sequence (prefix-closed properties: check the whole)
+        for sid, got in by_sid_got.items():
+            sent = by_sid_sent.get(sid, [])
+            kind = case["streams"].get(str(sid), ["?"])[0]
+            cg, cs = collections.Counter(got), collections.Counter(sent)
+            for k, v in cg.items():
+                if v > cs[k]:
+                    return f"stream {sid}: message {k[:40]} delivered {v} times but sent {cs[k]} times"
+            if kind == "o" and got != sent[:len(got)]:
+                return f"ordered stream {sid}: the {len(got)} deliveries are not a prefix of the {len(sent)} messages sent"
+        return None
+
+    def label(self, case, impl_out):
+        if case["kind"] == "raw":
+            return "raw-crash" if "crash" in impl_out else "raw"
+        body = impl_out.split("#")[0]
+        n = sum(1 for part in body.split("|") for x in part.split(",") if x != "-" and x)
+        total = len(case["msgs"])
+        wrap = "wrap" if case["last"] >= M32 - 8 else "nowrap"
+        return f"plan-{wrap}-" + ("all" if n == total else "some" if n else "none")
+
+    def nontrivial(self, case, impl_out):
+        return ":" in impl_out.split("#")[0]
+
+    def shrink(self, case):
+        if case["kind"] == "plan":
+            o = case["order"]
+            for i in range(len(o)):
+                yield dict(case, order=o[:i] + o[i + 1:])
+        else:
+            c = case["chunks"]
+            for i in range(len(c)):
+                if len(c) > 1:
+                    yield dict(case, chunks=c[:i] + c[i + 1:])
+
+
+# ---------------------------------------------------------------------------------------------------------
+# send: `_send` vs Tx.sendAll
+# ---------------------------------------------------------------------------------------------------------
+
+SIZES = [1, 2, 100, 1199, 1200, 1201, 2399, 2400, 2401, 3600, 3601, 5000]
+
+
+def _payload(size, salt):
+    return bytes((salt * 31 + i * 7 + (i >> 8)) % 256 for i in range(size))
+
+
+class Send(Component):
+    name = "send"
+    theorems = ["fragments_shape", "fragments_flags", "fragments_join", "fragments_size", "enqueue_counters", "sendAll_wire"]
+
+    def cases(self, rng, tier):
+        n = 60 if tier == "quick" else 1500
+        out = []
+        for _ in range(n):
+            tsn = rng.choice(TSN_ORIGINS) if rng.random() < 0.7 else rng.randrange(M32)
+            seqs = {str(s): rng.choice([65535, 65534, 1, 7]) for s in rng.sample([0, 1, 2, 9], rng.randrange(0, 3))}
+            msgs = []
+            for _ in range(rng.randrange(1, 6)):
+                size = rng.choice(SIZES) if rng.random() < 0.9 else rng.choice([0, 65535, 65536, 20000])
+                msgs.append([rng.choice([0, 1, 2, 9]), rng.choice([50, 51, 53, 56, 57]), int(rng.random() < 0.6), size, rng.randrange(1000)])
+            out.append({"tsn": tsn, "seqs": seqs, "msgs": msgs})
+        return out
+
+    def model_line(self, case):
+        ms = ";".join(f"{sid},{ppid},{o},{_hx(_payload(size, salt))}" for sid, ppid, o, size, salt in case["msgs"])
+        sq = ",".join(f"{s}={v}" for s, v in case["seqs"].items()) or "-"
+        return f"sctprecv send {case['tsn']} {sq} {ms}"
+
+    def impl(self, case):
+        ep, t, m = _transport(case["tsn"])
+        t._local_tsn = case["tsn"]
+        for s, v in case["seqs"].items():
+            t._outbound_stream_seq[int(s)] = v
+
+        async def _transmit():
+            return None
+
+        t._transmit = _transmit
+        for sid, ppid, o, size, salt in case["msgs"]:
+            _drive(t._send(sid, ppid, _payload(size, salt), ordered=bool(o)))
+        cs = ";".join(f"{c.tsn},{c.stream_id},{c.stream_seq},{c.protocol},{c.flags},{_hx(c.user_data)}" for c in t._outbound_queue) or "-"
+        sq = ",".join(f"{k}={v}" for k, v in t._outbound_stream_seq.items()) or "-"
+        return f"{cs}#{t._local_tsn}#{sq}"
+
+    def oracle(self, case, impl_out):
+        if impl_out.startswith("HARNESS"):
+            return impl_out[:200]
+        body, tsn_after, _ = impl_out.split("#")
+        chunks = [] if body == "-" else [c.split(",") for c in body.split(";")]
+        pos = 0
+        tsn = case["tsn"]
+        ssn = {int(s): v for s, v in case["seqs"].items()}
+        for sid, ppid, o, size, salt in case["msgs"]:
+            data = _payload(size, salt)
+            n = -(-size // 1200)
+            mine = chunks[pos:pos + n]
+            pos += n
+            if len(mine) != n:
+                return f"message of {size} bytes: expected {n} fragments"
+            joined = b"".join(b"" if c[5] == "-" else bytes.fromhex(c[5]) for c in mine)
+            if joined != data:
+                return f"message of {size} bytes on stream {sid}: the fragments' concatenation is not the message"
+            expect_ssn = ssn.get(sid, 0) if o else 0
+            for i, c in enumerate(mine):
+                fl = int(c[4])
+                if bool(fl & 2) != (i == 0) or bool(fl & 1) != (i == n - 1) or bool(fl & 4) != (not o) or fl >= 8:
+                    return f"message of {size} bytes: fragment {i}/{n} has flags {fl}"
+                if int(c[0]) != tsn:
+                    return f"message of {size} bytes: fragment {i} has TSN {c[0]}, expected {tsn}"
+                tsn = (tsn + 1) % M32
+                if int(c[1]) != sid or int(c[3]) != ppid or int(c[2]) != expect_ssn:
+                    return f"message of {size} bytes: fragment {i} has sid/ssn/ppid {c[1]}/{c[2]}/{c[3]}, expected {sid}/{expect_ssn}/{ppid}"
+                if (0 if c[5] == "-" else len(c[5]) // 2) > 1200:
+                    return f"fragment of more than 1200 bytes"
+            if o:
+                ssn[sid] = (ssn.get(sid, 0) + 1) % 65536
+        if pos != len(chunks):
+            return "more chunks than fragments"
+        if int(tsn_after) != tsn:
+            return f"_local_tsn is {tsn_after} after sending, expected {tsn}"
+        after = {} if impl_out.split("#")[2] == "-" else {int(k): int(v) for k, v in (x.split("=") for x in impl_out.split("#")[2].split(","))}
+        for sid, v in ssn.items():
+            if after.get(sid, 0) != v:
+                return f"stream {sid}: next stream sequence number is {after.get(sid, 0)} after sending, expected {v} (16-bit serial)"
+        return None
+
+    def label(self, case, impl_out):
+        mx = max(s for _, _, _, s, _ in case["msgs"])
+        return ("wrap-" if case["tsn"] >= M32 - 8 else "") + ("multi" if mx > 1200 else "single")
+
+
+# ---------------------------------------------------------------------------------------------------------
+# ppid: `_data_channel_send` / `_data_channel_receive`
+# ---------------------------------------------------------------------------------------------------------
+
+STRS = ["", "a", "é", "日本語", "🙂", "\x00", "x" * 1300, "aࠀ￿\U00010000"]
+BINS = [b"", b"\x00", b"a", bytes(range(256)), b"\xff\xfe", b"\xc3", b"z" * 1201]
+RAW = [b"", b"\x00", b"\xc3\xa9", b"\xc3", b"\xed\xa0\x80", b"\xf4\x90\x80\x80", b"\xe0\x80\x80", b"\xc0\xaf", b"abc", b"\xf0\x9f\x99\x82",
+       b"\x03" + b"\x00" * 11, b"\x02", b"\x03"]
+
+
+class Ppid(Component):
+    name = "ppid"
+    theorems = ["ppid_roundtrip", "encodeUser_nonempty", "decodeUser_dcep"]
+
+    def cases(self, rng, tier):
+        out = [{"op": "rt", "s": 1, "hex": _hx(s.encode("utf8"))} for s in STRS]
+        out += [{"op": "rt", "s": 0, "hex": _hx(b)} for b in BINS]
+        for p in (50, 51, 52, 53, 54, 56, 57, 0, 49):
+            for r in RAW:
+                out.append({"op": "dec", "ppid": p, "hex": _hx(r)})
+        n = 30 if tier == "quick" else 2000
+        for _ in range(n):
+            b = bytes(rng.choice([0, 0x41, 0x7f, 0x80, 0xbf, 0xc2, 0xdf, 0xe0, 0xed, 0xef, 0xf0, 0xf4, 0xf5, 0xa0, 0x9f, 0x90, 0x8f])
+                      for _ in range(rng.randrange(0, 6)))
+            out.append({"op": "dec", "ppid": rng.choice([51, 51, 53, 56, 57]), "hex": _hx(b)})
+            out.append({"op": "rt", "s": 0, "hex": _hx(b)})
+        return out
+
+    def model_line(self, case):
+        if case["op"] == "rt":
+            return f"sctprecv rt {case['s']} {case['hex']}"
+        return f"sctprecv dec {case['ppid']} {case['hex']}"
+
+    @staticmethod
+    def _recv(t, ppid, data):
+        got = []
+        ch = types.SimpleNamespace(emit=lambda name, msg: got.append(msg) if name == "message" else None,
+                                   readyState="open", _setReadyState=lambda s: None)
+        t._data_channels[7] = ch
+        _drive(t._data_channel_receive(7, ppid, data))
+        if not got:
+            return "-"
+        if len(got) > 1:
+            return "several"
+        msg = got[0]
+        return ("s:" + _hx(msg.encode("utf8"))) if isinstance(msg, str) else ("b:" + _hx(msg))
+
+    def impl(self, case):
+        ep, t, m = _transport()
+        raw = b"" if case["hex"] == "-" else bytes.fromhex(case["hex"])
+        if case["op"] == "dec":
+            return self._recv(t, case["ppid"], raw)
+        value = raw.decode("utf8") if case["s"] else raw
+        ch = types.SimpleNamespace(_addBufferedAmount=lambda n: None)
+        t._data_channel_send(ch, value)
+        _, ppid, user = t._data_channel_queue[-1]
+        return f"{ppid}:{_hx(user)}>" + self._recv(t, ppid, user)
+
+    def oracle(self, case, impl_out):
+        if case["op"] != "rt":
+            return None
+        want = ("s:" if case["s"] else "b:") + case["hex"]
+        if not impl_out.endswith(">" + want):
+            return f"send({'str' if case['s'] else 'bytes'} {case['hex'][:20]}) is received as {impl_out.split('>')[-1][:40]}"
+        user = impl_out.split(">")[0].split(":")[1]
+        if user == "-":
+            return "an empty user_data is handed to _send (no DATA chunk would carry it)"
+        return None
+
+    def label(self, case, impl_out):
+        return case["op"] + "-" + impl_out.split(">")[-1][:1]
+
+
+def _close_pool():
+    # shut the shared worker pool down before interpreter teardown (avoids a noisy Pool.__del__ traceback)
+    p = getattr(S, "_POOL", None)
+    if p is not None:
+        S._POOL = None
+        p.terminate()
+        p.join()
+
+
+atexit.register(_close_pool)
 
 
 def components(tier):
-    return [World()]
+    return [World(), Recv(), Send(), Ppid()]
 
 
 def classify_finding(finding, comp_name, case, what):
